@@ -22,6 +22,7 @@ import (
 
 	"github.com/jsimonetti/rtnetlink"
 	"github.com/mdlayher/corerad/internal/verifsim"
+	"github.com/mdlayher/corerad/verifyield"
 )
 
 // A WPlan is one simulated run of a Watcher.
@@ -120,8 +121,8 @@ func execWPlan(t *testing.T, p *WPlan, res *verifsim.Result, after func(ev []ver
 		ctx, cancel := context.WithCancel(context.Background())
 		watchDone := make(chan struct{})
 		sc := &sched{parts: map[int]*participant{}}
-		verifsim.YieldHook = sc.yield
-		defer func() { verifsim.YieldHook = nil }()
+		verifyield.Hook = sc.yield
+		defer func() { verifyield.Hook = nil }()
 		go func() {
 			defer close(watchDone)
 			sc.register("watcher")
